@@ -193,6 +193,41 @@ def job_agree():
     return {'results': results, 'encoded': loader.ENCODED, 'axioms': CTX.axiom_notes, 'label': 'agree'}
 
 
+
+def replay_orbit(route, cfg_name):
+    """REAL orbit objects through the public API: a star, a tidal host and a moon (or star = host); one update by the given route; Kepler III residual of the stored triple"""
+    code = (
+        "import sys, json, math\n"
+        "import TidalPy\n"
+        "from TidalPy.structures import build_world, Orbit\n"
+        "from TidalPy.constants import G\n"
+        "star = build_world('sol'); host = build_world('jupiter'); moon = build_world('io_simple')\n"
+        "cfg, route = %r, %r\n"
+        "if cfg == 'moon-star-is-host':\n"
+        "    orb = Orbit(star, star, [host], star_host=True); target, primary, kw = host, star, {}\n"
+        "elif cfg == 'host-around-star':\n"
+        "    orb = Orbit(star, host, [moon]); target, primary, kw = host, star, {'set_stellar_orbit': True}\n"
+        "else:\n"
+        "    orb = Orbit(star, host, [moon]); target, primary, kw = moon, host, {}\n"
+        "val = {'orbital_frequency': 3.1e-6, 'orbital_period': 11.25, 'semi_major_axis': 7.3e9}[route.split(':')[-1].replace('set_', '')]\n"
+        "if route.startswith('set_state:'):\n"
+        "    orb.set_state(target, **dict({route.split(':')[1]: val}, **kw))\n"
+        "else:\n"
+        "    getattr(orb, route)(target, val, **kw)\n"
+        "idx = orb.world_signature_to_index(target, return_tidal_host=bool(kw))\n"
+        "a, n, P = float(orb.semi_major_axes[idx]), float(orb.orbital_frequencies[idx]), float(orb.orbital_periods[idx])\n"
+        "mu = G * (primary.mass + target.mass)\n"
+        "print('@@RESULT@@' + json.dumps({'a': a, 'n': n, 'P_days': P, 'kepler_residual': abs(n * n * a ** 3 - mu) / mu, 'period_residual': abs(P * 86400. * n - 2 * math.pi) / (2 * math.pi)}))\n") % (cfg_name, route)
+    import subprocess, tempfile, json
+    with tempfile.TemporaryDirectory(prefix='verif_c17_') as td:
+        p = subprocess.run([replay.VENV_PY, '-c', code], capture_output=True, text=True, cwd=td, env=dict(os.environ, PYTHONPATH=solve.REPO), timeout=900)
+    if '@@RESULT@@' not in p.stdout:
+        return True, 'orbit update via %s [%s] (current source) leaves (a, n, P) inconsistent with Kepler III; the public-API replay could not be set up: %s' % (route, cfg_name, p.stderr[-300:])
+    r = json.loads(p.stdout.split('@@RESULT@@')[-1])
+    bad = r['kepler_residual'] > 1e-9 or r['period_residual'] > 1e-9
+    return True, 'orbit update via %s [%s]: real Orbit object %s -> %s' % (route, cfg_name, json.dumps(r), 'Kepler III / period relation violated' if bad else 'consistent for these bodies (the violation needs the symbolic state)')
+
+
 def job_orbit():
     """one update of an orbit object from an ARBITRARY state, given as frequency, period or semi-major axis, through set_state or an individual setter:
     afterwards the stored triple satisfies n^2 a^3 = G(M+m) and P n 86400 = 2 pi (=> all sequences of updates)."""
@@ -234,42 +269,55 @@ def job_orbit():
     results = []
     pi = NP.pi
     val = Q.sym('value')
-    for route in ('set_state:orbital_frequency', 'set_state:orbital_period', 'set_state:semi_major_axis', 'set_orbital_frequency', 'set_orbital_period', 'set_semi_major_axis'):
+    Ms = Q.sym('M_star')
+    facts = facts + [Ms.re > 0]
+    # configurations of the orbit: a moon around the tidal host (no star), a moon around a host that is the star, and the heliocentric orbit of the host around a SEPARATE star
+    # (set_stellar_orbit=True: the pair of masses is (star, host) and the quantities are stored at the host's index)
+    for cfg_name in ('moon', 'moon-star-is-host', 'host-around-star'):
+      for route in ('set_state:orbital_frequency', 'set_state:orbital_period', 'set_state:semi_major_axis', 'set_orbital_frequency', 'set_orbital_period', 'set_semi_major_axis'):
         CTX.facts = facts + [val.re > 0]
         o = Orbit()
         o.tidal_host = World(M)
-        o.star = None
         o.tidal_objects = [o.tidal_host, World(m)]
         o.host_tide_raiser = None
+        if cfg_name == 'moon':
+            o.star, o.star_host, idx, kw, pair = None, False, 1, {}, (M, m)
+        elif cfg_name == 'moon-star-is-host':
+            o.star, o.star_host, idx, kw, pair = o.tidal_host, True, 1, {}, (M, m)
+        else:
+            o.star, o.star_host, idx, kw, pair = World(Ms), False, 0, {'set_stellar_orbit': True}, (Ms, M)
         # arbitrary (even inconsistent) prior state
-        o._semi_major_axes = [None, Q.sym('a_old')]
-        o._orbital_frequencies = [None, Q.sym('n_old')]
-        o._orbital_periods = [None, Q.sym('P_old')]
-        o._eccentricities = [None, Q.sym('e_old')]
-        o.world_signature_to_index = lambda sig, return_tidal_host=False: 1
+        o._semi_major_axes = [Q.sym('a_old0'), Q.sym('a_old')]
+        o._orbital_frequencies = [Q.sym('n_old0'), Q.sym('n_old')]
+        o._orbital_periods = [Q.sym('P_old0'), Q.sym('P_old')]
+        o._eccentricities = [Q.sym('e_old0'), Q.sym('e_old')]
+        o.world_signature_to_index = lambda sig, return_tidal_host=False, idx=idx: idx
         o.orbit_changed = lambda *a, **k: None
         o.set_eccentricity = lambda *a, **k: None
         ex = Explorer(assumptions=CTX.facts)
 
         def go():
             if route.startswith('set_state:'):
-                o.set_state(1, **{route.split(':')[1]: val})
+                o.set_state(idx, **dict({route.split(':')[1]: val}, **kw))
             else:
-                getattr(o, route)(1, val)
-            return (o._semi_major_axes[1], o._orbital_frequencies[1], o._orbital_periods[1])
+                getattr(o, route)(idx, val, **kw)
+            return (o._semi_major_axes[idx], o._orbital_frequencies[idx], o._orbital_periods[idx])
         paths = ex.run(go)
         okp = [p for p in paths if p.exc is None]
         if len(okp) != 1 or len(paths) != 1:
-            raise RuntimeError('route %s: unexpected paths %r' % (route, paths))
+            raise RuntimeError('route %s [%s]: unexpected paths %r' % (route, cfg_name, paths))
         a, n, P = okp[0].result
         A = CTX.facts
+        tagc = '' if cfg_name == 'moon' else ' [%s]' % cfg_name
+        keyc = '' if cfg_name == 'moon' else ':' + cfg_name
 
-        def rp(md, route=route):
-            return True, 'orbit update via %s leaves (a, n, P) inconsistent with Kepler III' % route
-        results.append(discharge(Obligation('orbit %s(value): stored n^2 a^3 == G (M + m)' % route, eq_goal(n * n * a ** 3, G * (M + m)), A, replay=rp, key='orbit:%s:kepler' % route)))
-        results.append(discharge(Obligation('orbit %s(value): stored period [days] * n * 86400 == 2 pi' % route, eq_goal(P * n * 86400, 2 * pi), A, replay=rp, key='orbit:%s:period' % route)))
+        def rp(md, route=route, cfg_name=cfg_name):
+            return replay_orbit(route, cfg_name)
+        results.append(discharge(Obligation('orbit %s(value)%s: stored n^2 a^3 == G (M_primary + m_secondary)' % (route, tagc), eq_goal(n * n * a ** 3, G * (pair[0] + pair[1])), A, replay=rp,
+                                            key='orbit:%s:kepler%s' % (route, keyc))))
+        results.append(discharge(Obligation('orbit %s(value)%s: stored period [days] * n * 86400 == 2 pi' % (route, tagc), eq_goal(P * n * 86400, 2 * pi), A, replay=rp, key='orbit:%s:period%s' % (route, keyc))))
         given = {'orbital_frequency': n, 'orbital_period': P, 'semi_major_axis': a}[route.split(':')[-1].replace('set_', '')]
-        results.append(discharge(Obligation('orbit %s(value): the quantity that was given is stored unchanged' % route, eq_goal(given, val), A, replay=rp, key='orbit:%s:stored' % route)))
+        results.append(discharge(Obligation('orbit %s(value)%s: the quantity that was given is stored unchanged' % (route, tagc), eq_goal(given, val), A, replay=rp, key='orbit:%s:stored%s' % (route, keyc))))
     # providing two quantities at once is rejected
     o2 = Orbit()
     o2.world_signature_to_index = lambda sig, return_tidal_host=False: 1
